@@ -66,4 +66,14 @@ PROPS = {
         floor={Q: 1000, T: 100000},
         assumptions=["the naive nd-array in harness/src/naive.rs (numpy slicing semantics) is the reference"],
     ),
+    "C15": dict(
+        gen=dict(script="modelgen.py", args=["--family", "singleop"]),
+        steps=[native("modelcheck", ["c15"], shards=4)],
+        floor={Q: 1000, T: 5000},
+        assumptions=[
+            "the numpy transcription of the ONNX operator specifications in gen/onnxgen/ops.py is the reference (the onnx package's reference implementation is not installed)",
+            "operator/attribute settings that rten refuses with an error are counted as unsupported, not as violations",
+            "inputs for which the specification leaves the result open (NaN ordering in max/min/top-k style operators, out-of-range casts, align_corners with a size-1 output, Gemm with beta=0 and non-finite C) are not generated",
+        ],
+    ),
 }
